@@ -448,6 +448,8 @@ fn f32_case(rep: &mut Report, which: Formula, rng: &mut Rng, complex: bool) {
 /// (`f32-first`), or the other way round (`f64-first`). Prints the worst error in units of
 /// eps*ptilde/h^m per precision; the parent applies the frozen constants.
 pub fn order_probe(order: &str) {
+    // f64::max ignores a NaN operand: a NaN result must count as an infinite error
+    let acc = |w: f64, v: f64| if v.is_nan() { f64::INFINITY } else { w.max(v) };
     let grid_x = [-1.5, 0.0, 0.25, 1.0, 2.0];
     let grid_h = [0.0625, 0.125, 0.25];
     let coef: [f64; 5] = [0.75, -1.5, 0.5, 2.0, -0.25];
@@ -459,11 +461,11 @@ pub fn order_probe(order: &str) {
             for h in grid_h {
                 let d1 = derivative(|t: f64| p.eval_r(t), x, h);
                 let d2 = second_derivative(|t: f64| p3.eval_r(t), x, h);
-                w1 = w1.max((d1 - p.deriv(1, x).re).abs() / (EPS * p.tilde(x.abs() + 2.0 * h) / h));
-                w2 = w2.max((d2 - p3.deriv(2, x).re).abs() / (EPS * p3.tilde(x.abs() + 2.0 * h) / (h * h)));
+                w1 = acc(w1, (d1 - p.deriv(1, x).re).abs() / (EPS * p.tilde(x.abs() + 2.0 * h) / h));
+                w2 = acc(w2, (d2 - p3.deriv(2, x).re).abs() / (EPS * p3.tilde(x.abs() + 2.0 * h) / (h * h)));
                 let pc = Poly { c: coef.iter().map(|c| C::new(*c, 0.5 * *c)).collect(), complex: true };
                 let dc = derivative(|t: f64| pc.eval_c(t), x, h);
-                w1 = w1.max((dc - pc.deriv(1, x)).norm() / (EPS * pc.tilde(x.abs() + 2.0 * h) / h));
+                w1 = acc(w1, (dc - pc.deriv(1, x)).norm() / (EPS * pc.tilde(x.abs() + 2.0 * h) / h));
             }
         }
         (w1, w2)
@@ -479,8 +481,8 @@ pub fn order_probe(order: &str) {
                 let (xf, hf) = (x as f32, h as f32);
                 let d1 = derivative(|t: f32| ev(&c32, t), xf, hf) as f64;
                 let d2 = second_derivative(|t: f32| ev(&c32[..4], t), xf, hf) as f64;
-                w1 = w1.max((d1 - p.deriv(1, x).re).abs() / (EPS32 * p.tilde(x.abs() + 2.0 * h) / h));
-                w2 = w2.max((d2 - p3.deriv(2, x).re).abs() / (EPS32 * p3.tilde(x.abs() + 2.0 * h) / (h * h)));
+                w1 = acc(w1, (d1 - p.deriv(1, x).re).abs() / (EPS32 * p.tilde(x.abs() + 2.0 * h) / h));
+                w2 = acc(w2, (d2 - p3.deriv(2, x).re).abs() / (EPS32 * p3.tilde(x.abs() + 2.0 * h) / (h * h)));
             }
         }
         (w1, w2)
